@@ -161,6 +161,9 @@ def signature(B, rec, out, failing):
 
 def run_task(task):
     import checks.C20 as me
+    if task["params"].get("mode") == "two":
+        from checks import c20_two
+        return c20_two.run_task(task)
     if task["params"].get("mode") == "depth_unit":
         import time
         from checks.c20_depth_unit import explore_depth
@@ -179,6 +182,9 @@ def run_task(task):
 
 def replay(rec):
     import checks.C20 as me
+    if rec["params"].get("mode") == "two":
+        from checks import c20_two
+        return c20_two.replay(rec)
     if rec["params"].get("mode") == "depth_unit":
         from checks.c20_depth_unit import replay_depth
         if rec["params"].get("selftest"):
@@ -212,6 +218,12 @@ def tasks(tier, seed, selftest=False):
         for fam in ("B22", "CH4"):
             S.append(dict(family=fam, skeleton=("build",), timebox=300, cube_k=4, nbits=20))
     T = histcheck.mk_tasks(PROP, S, seed)
+    # is_subgraph / is_isomorphic between diagrams of two different symbolic networks (checks/c20_two.py)
+    import checks.c20_two as two
+    for kf in two.OPS:
+        for kg in two.OPS:
+            T.append({"prop": PROP, "family": "-", "label": f"two/{kf}+{kg}", "timebox": 8 if q else 600, "seed": seed,
+                      "params": {"mode": "two", "kinds": [kf, kg]}})
     # one-step inductive unit for depths on a symbolic DAG (checks/c20_depth_unit.py)
     for N in ((4, 5, 6, 7) if q else (4, 5, 6, 7, 8)):
         for order in ("asc", "desc"):
@@ -226,5 +238,5 @@ def main(tier, seed, t0, selftest=False):
                          bounds={"history": "K<=2 ops from " + ",".join(OPS) + " + build; metadata compared after every op",
                                  "families": "U2 (K=1 exhaustive, K=2 time-boxed in quick), D3, U3 slices; B22/CH4 build (thorough)",
                                  "depth unit": "real _ensure_edge/_update_node_depth on a symbolic DAG with <= 7 (thorough 8) nodes in topological numbering, symbolic adjacency, pre-state depths = longest root paths, any new or repeated edge; both successor iteration orders",
-                                 "is_subgraph": "against a fresh fully expanded diagram of the same network (both directions)"},
+                                 "is_subgraph": "against a fresh fully expanded diagram of the same network (both directions); and between diagrams of two independent symbolic 2-variable networks over the same names, each after nothing / root expansion / limited bfs / full bfs"},
                          assumptions=["contract stubs of DESIGN.md §8 validated on every representative"])
